@@ -3,7 +3,7 @@ empty is not claimed."""
 
 PROPS = {
     "C01": dict(
-        rules=["R-CALC", "R-SLOT", "R-ORDER", "R-REACH", "R-PROV", "R-ENTRY", "R-LISTAPI", "R-ID", "R-SNAP"],
+        rules=["R-CALC", "R-SLOT", "R-ORDER", "R-REACH", "R-PROV", "R-ENTRY", "R-LISTAPI", "R-ID", "R-SNAP", "R-CHAIN"],
         decided="necessary conditions for incremental = from-scratch: rule/slot tables, def-before-use in the "
                 "schedule, class-level reachability for link edits, value-level provenance completeness for numeric "
                 "edits, single entry point for edits, no inherited list mutator, injective dedup ids, snapshot order",
@@ -14,12 +14,12 @@ PROPS = {
                 "deduplication; every footprint-bearing class is covered; footprint = energy x intensity (degree rows)",
         not_decided="finiteness and sign of the values"),
     "C03": dict(
-        rules=["R-SHIFT", "R-FILL", "R-PERUP", "R-DEG"],
+        rules=["R-SHIFT", "R-FILL", "R-PERUP", "R-DEG", "R-DELAY"],
         decided="index shift (freq=) not positional shift, zero-fill on series addition/multiplication, per-pattern "
                 "writer/reader collection agreement, linearity of load quantities in the traffic series",
         not_decided="the conservation identities themselves (floor/ceil hour arithmetic, totals)"),
     "C04": dict(
-        rules=["R-RAW2", "R-BOUND"],
+        rules=["R-RAW2", "R-BOUND", "R-CUMUL"],
         decided="two-series raw array operations are aligned and unit-fixed; order-domain bounds nb >= raw, "
                 "active <= nb; the fixed instance count is compared against the need before it is used",
         not_decided="every >= inequality numerically; float cancellation in the storage negativity check"),
@@ -29,7 +29,7 @@ PROPS = {
                 "baseline/simulated lists are built in lockstep; rules write only their own attribute",
         not_decided="identity of every object after arbitrary toggle sequences"),
     "C06": dict(
-        rules=["R-ZIP", "R-TXN:date"],
+        rules=["R-ZIP", "R-TXN:date", "R-SIMDATE"],
         decided="twin pairing lists are built in lockstep; the naive-date and outside-period rejections precede "
                 "any mutation (or are rolled back)",
         not_decided="equality with the really-updated model; 'no hour before the date'"),
@@ -39,7 +39,7 @@ PROPS = {
                 "numeric change; every assigned result labelled",
         not_decided="numeric re-evaluation of each node"),
     "C08": dict(
-        rules=["R-PROV", "R-EDGE", "R-ID", "R-ACYC", "R-SUMMARY"],
+        rules=["R-PROV", "R-EDGE", "R-ID", "R-ACYC", "R-SUMMARY", "R-CHAIN"],
         decided="completeness (every dependency is a transitive recorded ancestor), both-ends bookkeeping has single "
                 "writers and paired loops, dedup ids injective, attribute graph acyclic at class level",
         not_decided="correctness of attr_updates_chain on arbitrary graphs"),
@@ -63,12 +63,12 @@ PROPS = {
         decided="homogeneity degree of each footprint formula in each documented driver, and independence rows",
         not_decided="floating-point exactness of k*x"),
     "C13": dict(
-        rules=["R-JSON-KEYS", "R-JSON-KINDS", "R-JSON-UPG", "R-JSON-CLS"],
+        rules=["R-JSON-KEYS", "R-JSON-KINDS", "R-JSON-UPG", "R-JSON-CLS", "R-JSON-ID"],
         decided="writer/reader key agreement, to_json dispatch covers every attribute kind, upgrade-handler table "
                 "total, class table covers the reachable classes",
         not_decided="numeric equality after reload, byte-equality of re-export, liveness of the loaded system"),
     "C14": dict(
-        rules=["R-TXN:val", "R-VAL-FORMS", "R-VAL-SIB", "R-VAL-DEF", "R-ENTRY"],
+        rules=["R-TXN:val", "R-VAL-FORMS", "R-VAL-SIB", "R-VAL-DEF", "R-VAL-AUTH", "R-ENTRY"],
         decided="validation precedes mutation or is rolled back; validator dispatch covers every annotation form; "
                 "both entry paths call both validators; defaults table covers quantity parameters; __setattr__ "
                 "overrides delegate",
